@@ -50,7 +50,7 @@ theorem case2_lambda (L : Laws2 D) {f : Nat} {cst cst' : CState} {c : Ctx} {base
     (hnodef : ∀ e ∈ b :: bs, Spec.Eval.isDefine e = false)
     (hem : p.ctx.envmap = argEntries ps ++ caps)
     (hcaps : ∀ q ∈ caps, q.2 = .iofEnvironment ∧ inEnv c q.1 = true)
-    (hfb : F2B f p.ctx (fun x => x ∈ ps ∨ bound ρ x) body)
+    (hfb : F2B D.setG f p.ctx (fun x => x ∈ ps ∨ bound ρ x) body)
     (hcomp : compileExpr (f + 1) cst c base tail (.pair (.sym k_lambda) (.pair formals body)) = .ok (cst', code))
     (hpre : cst'.lambdas <+: D.final) {r : Spec.Eval.Rec} {σ σ' : SSt} {w : Val}
     (hev : evalStep r (.pair (.sym k_lambda) (.pair formals body)) ρ σ = .ok w σ')
